@@ -650,6 +650,12 @@ func (x *exec) runFault() (res result) {
 		}
 		break
 	}
+	// epilogue: the recovered session must itself be covered by the timers — the peer goes silent
+	// (it keeps reading), and the linktest has to notice within interval + T6 (threshold 1)
+	if f := x.muteEpilogue(); f != nil {
+		res.fail = f
+		return res
+	}
 	if f := x.closeAndWatch(); f != nil {
 		res.fail = f
 		return res
@@ -659,6 +665,28 @@ func (x *exec) runFault() (res result) {
 	res.sample = map[string]any{"case": cs, "where": x.describe(), "covered_by": timer, "reconnects_at_end": res.reconnects, "fault_at": x.tF.String(), "link_dropped_at": fmt.Sprint(tDs),
 		"attempt_gaps": fmt.Sprint(allGaps), "attempts": x.attemptLog()}
 	return res
+}
+
+// muteEpilogue: after a successful recovery the peer stops sending (and keeps reading). The
+// automatic linktest of the recovered session must probe and, unanswered for T6, give the link up.
+func (x *exec) muteEpilogue() *failure {
+	w := x.w
+	t0 := w.Now()
+	x.setRefusals(0)
+	limit := x.ts.LT + x.ts.T6 + x.ts.WT + time.Second
+	probes := 0
+	for w.Now()-t0 < limit {
+		w.Advance(250 * time.Millisecond)
+		for _, f := range x.read() {
+			if f.SType == peer.SLinktestReq {
+				probes++
+			}
+		}
+		if w.C.State() != hsms.SelectedState {
+			return nil // given up: the reconnect machinery takes over (closeAndWatch follows)
+		}
+	}
+	return x.failf("mute-after-recovery", "after the recovery the peer went silent for %v (linktest interval %v + T6 %v + write timeout): %d Linktest.req seen, State() is still Selected — a silent-peer stall of the recovered session is not recovered from", limit, x.ts.LT, x.ts.T6, probes)
 }
 
 // runCold: an active connection opened in the background towards a peer that refuses the
